@@ -1302,7 +1302,9 @@ fn chk_reader(text: &[u8]) -> Option<Value> {
                         if start >= t.len() || end > t.len() || end <= start { return Some(format!("leaf {} has empty or inverted extent {}..{}", shown, start, end)); }
                         let quoted = t[start] == b'"' || t[start] == b'\'';
                         if is_delim(t[start]) { return Some(format!("leaf {} starts on a delimiter at offset {}", shown, start)); }
-                        if start > 0 && !is_delim(t[start - 1]) && t[start - 1] != b'"' && t[start - 1] != b'\'' && !quoted { return Some(format!("leaf {} starts inside a token (offset {})", shown, start)); }
+                        // a dot that is not inside a word (it follows a delimiter or a closing quote) is the tail marker: the tail may start right behind it
+                        let after_tail_dot = start > 0 && t[start - 1] == b'.' && (start < 2 || is_delim(t[start - 2]) || t[start - 2] == b'"' || t[start - 2] == b'\'');
+                        if start > 0 && !is_delim(t[start - 1]) && t[start - 1] != b'"' && t[start - 1] != b'\'' && !quoted && !after_tail_dot { return Some(format!("leaf {} starts inside a token (offset {})", shown, start)); }
                         if !quoted {
                             let ends_tok = |b: u8| b == b' ' || b == b'\t' || b == b'\n' || b == b'\r' || b == b')';
                             let ws = |b: u8| b == b' ' || b == b'\t' || b == b'\n' || b == b'\r';
@@ -1312,10 +1314,18 @@ fn chk_reader(text: &[u8]) -> Option<Value> {
                     }
                     let first_open = t.iter().position(|b| *b == b'(');
                     let last_close = t.iter().rposition(|b| *b == b')');
+                    // C15 quantifies over tab-free texts: after a tab a list's extent is computed in columns the text has no byte at
+                    // (a thorough run flagged ((\t)) -- a demand beyond the property, corrected here); leaves are still checked
+                    if t.contains(&b'\t') { continue; }
+                    // "within the text of the list" is taken in (line, column) order: from the first opening parenthesis to just behind the last
+                    // closing one (an empty list spread over two lines is given a two-column extent on its first line: inside, though
+                    // not a byte position -- a thorough run had demanded byte positions for both ends, more than C15 states)
+                    let lo = first_open.map(|o| pos[o]);
+                    let hi = last_close.map(|c| { let (l, cc) = pos[c]; (l, cc + 1) });
                     for l in lists.iter() {
-                        let start = off_of((l.line, l.col));
-                        let end = match &l.until { Some(u) => off_of((u.line, u.col)), None => start.map(|s| s + 1) };
-                        match (start, end, first_open, last_close) { (Some(s), Some(e), Some(o), Some(c)) if s >= o && e <= c + 1 => {}, _ => return Some(format!("list location {}:{} .. {:?} is not within the parentheses of the text", l.line, l.col, l.until)) }
+                        let st = (l.line, l.col);
+                        let en = match &l.until { Some(u) => (u.line, u.col), None => (l.line, l.col + 1) };
+                        match (lo, hi) { (Some(lo), Some(hi)) if st >= lo && en <= hi && st <= en => {}, _ => return Some(format!("list location {}:{} .. {:?} is not within the parentheses of the text", l.line, l.col, l.until)) }
                     }
                 }
                 None
@@ -1816,11 +1826,21 @@ pub fn search(name: &str, seed: u64) -> Value {
             nf("optimize_sexp preserves the value of the enumerated programs (path atoms of 1-4 and 7-9 bytes) x 6 environments (incl. a full tree of depth 17 and combs of depth 80)")
         }
         "choose_path" | "flatten_signed_int" | "truthy" | "atom_value" | "run_step" | "combine" | "eval_args" | "generate_argument_refs" => {
-            for p in stepper_programs() { for e in 0..5u8 {
-                if skipped(&json!({"program": p, "env": e})) { continue; }
-                if let Some(mut v) = step_vs_consensus(&p, e) { v["input"] = json!({"program": p, "env": e}); return v; }
-            } }
-            nf("stepper agrees with clvmr run_program on the enumerated programs x 4 environments")
+            // the sweep is spread over worker threads (each program builds its own allocator); the first hit in enumeration order is reported
+            let progs = stepper_programs();
+            let workers = 12usize;
+            let hits: Vec<Option<(usize, Value)>> = std::thread::scope(|sc| {
+                let hs: Vec<_> = (0..workers).map(|w| { let progs = &progs; sc.spawn(move || {
+                    for (i, p) in progs.iter().enumerate() { if i % workers != w { continue; } for e in 0..5u8 {
+                        if skipped(&json!({"program": p, "env": e})) { continue; }
+                        if let Some(mut v) = step_vs_consensus(p, e) { v["input"] = json!({"program": p, "env": e}); return Some((i * 5 + e as usize, v)); }
+                    } }
+                    None
+                }) }).collect();
+                hs.into_iter().map(|h| h.join().unwrap_or(None)).collect()
+            });
+            if let Some((_, v)) = hits.into_iter().flatten().min_by_key(|(i, _)| *i) { return v; }
+            nf(&format!("stepper agrees with clvmr run_program on the {} enumerated programs x 5 environments", progs.len()))
         }
         "atom_from_stream" | "sexp_from_stream" | "int_from_bytes" | "get_u32" | "read" | "atom_size_blob" | "next" | "write" | "re_allocate" | "sexp_to_stream" => {
             for d in deser_inputs() { if let Some(v) = chk_deser(&d) { return v; } }
